@@ -314,6 +314,30 @@ pub fn run(tier: Tier) -> i32 {
                 ctx.violation(&case, &format!("base [{}], {}: malformed ({}) => Err", chunks_str(cs), what, reason), &obs_of(v, out, consumed), Some(&format!("C17:{}", listed.iter().find(|k| reason.contains(*k)).unwrap())));
                 continue;
             }
+            // the refusal must not depend on how the source hands its bytes over: a size field that disagrees with the payload
+            // read through a BufReader of every capacity (a decoder that measures the consumed input from what it can see in
+            // the reader's buffer is right for slices and wrong when the over-read crosses a refill), bytewise, and cut in half
+            if what.contains("declared compressed size") || what.contains("declared uncompressed size") || m.len() <= 40 {
+                let caps: Vec<usize> = if m.len() <= 320 { (1..=m.len() + 1).collect() } else { vec![1, 2, 3, 7, 64, 4096] };
+                let mut rds: Vec<Rd> = caps.iter().map(|&c| Rd { bufreader: c, ..Rd::default() }).collect();
+                rds.push(Rd { period: 1, ..Rd::default() });
+                rds.push(Rd { cuts: vec![m.len() / 2], ..Rd::default() });
+                let mut bad = false;
+                for rd in rds {
+                    let case = Case::Dec { fmt: Fmt::Lzma2, opts: Opts::default(), input: Hex(m.clone()), rd: rd.clone(), sk: Sk::default() };
+                    let o = crate::cases::run_case(&case);
+                    ctx.eval(1);
+                    ctx.traces.fetch_add(1, Ordering::Relaxed);
+                    if !o.v.is_err() {
+                        ctx.violation(&case, &format!("base [{}], {}: malformed ({}) => Err also when read through {:?}", chunks_str(cs), what, reason, rd), &o, Some(&format!("C17:{}", listed.iter().find(|k| reason.contains(*k)).unwrap())));
+                        bad = true;
+                        break;
+                    }
+                }
+                if bad {
+                    continue;
+                }
+            }
             // the same malformed stream as the SECOND stage of an .xz block with two chained LZMA2 filters (the first stage
             // stores it): lzma-rs decodes such chains; however many bytes the block claims to hold (every count is tried,
             // no check field), the malformed stage must surface as an error. Small streams only.
